@@ -126,7 +126,8 @@ Definition export_evm (e : evm_state) : list gen_acct := export_contracts e ++ e
 Record cpc_consts := CC {
   k_staking_addr : Z; k_bech32_addr : Z;
   k_native_meta : meta; k_staking_meta : meta; k_bech32_meta : meta;   (* what InitGenesis deploys *)
-  k_bond_denom : Z
+  k_bond_denom : Z;
+  k_module_addr : Z            (* cpctypes.CpcModuleAddress: address of the cpc module account *)
 }.
 
 Definition export (k : cpc_consts) (s : cstate) : gen :=
@@ -136,13 +137,32 @@ Definition export (k : cpc_consts) (s : cstate) : gen :=
       (zhas (k_staking_addr k) (c_metas (s_cpc s))).   (* DeployStakingContract: HasCustomPrecompiledContract(fixed address) *)
 
 (* ------------------------------------------------------------------ import (InitGenesis on a fresh application) *)
-(* what the rest of the fresh application provides while the custom modules initialise *)
+(* what the rest of the fresh application provides while the custom modules initialise.  x/auth and x/bank are
+   initialised BEFORE the custom modules (app/modules.go orderInitBlockers), so every account of the exported chain is
+   already there: also accounts sitting at addresses the custom modules use (somebody sent coins to a precompile
+   address, to a predicted contract address, a genesis file lists a vesting account there ...) *)
+Inductive acct_kind :=
+| ANone                        (* x/auth holds no account at the address *)
+| ABase                        (* *authtypes.BaseAccount (any sequence, any balances) *)
+| AVesting                     (* any of the vesting account types *)
+| AModule.                     (* *authtypes.ModuleAccount *)
+
 Record env := Env {
   v_hash : Z -> Z;            (* keccak256 on code identifiers *)
-  v_base_acct : Z -> bool;    (* x/auth (initialised before x/evm) holds a BaseAccount at the address *)
-  v_next_dyn : Z;             (* address GetNextDynamicCustomPrecompiledContractAddress would hand out *)
+  v_acct : Z -> acct_kind;    (* the account x/auth holds at an address *)
+  v_next_dyn : Z;             (* address GetNextDynamicCustomPrecompiledContractAddress would hand out
+                                 (CREATE address of the cpc module account at its current sequence) *)
   v_bond_supply_pos : bool    (* bank supply of the bond denom is positive *)
 }.
+
+(* x/evm InitGenesis: GetAccount must return a *BaseAccount *)
+Definition v_base_acct (v : env) (a : Z) : bool := match v_acct v a with ABase => true | _ => false end.
+
+(* AccountKeeper.GetModuleAccount(cpc) (called by GetNextDynamicCustomPrecompiledContractAddress): creates the module
+   account if there is none, returns it if it is a module account, and panics ("account is not a module account")
+   on any other account type at the module address *)
+Definition macc_ok (k : cpc_consts) (v : env) : bool :=
+  match v_acct v (k_module_addr k) with ANone | AModule => true | _ => false end.
 
 Inductive res (A : Type) := Ok (a : A) | Panic.
 Arguments Ok {A} a.
@@ -164,7 +184,8 @@ Fixpoint import_accts (v : env) (e : evm_state) (l : list gen_acct) : res evm_st
   | a :: r => match import_acct v e a with Ok e' => import_accts v e' r | Panic => Panic end
   end.
 
-(* SetCustomPrecompiledContractMeta(newDeployment = true) *)
+(* SetCustomPrecompiledContractMeta(newDeployment = true): refused only if a PRECOMPILE is registered at the address;
+   whether x/auth holds an account there (of any type, with any balance) plays no role *)
 Definition deploy (addr : Z) (m : meta) (c : cpc_state) : res cpc_state :=
   if zhas addr (c_metas c) then Panic else Ok (Cpc (c_params c) (zset addr m (c_metas c)) (c_denoms c) (c_allow c)).
 
@@ -174,6 +195,7 @@ Definition import_cpc (k : cpc_consts) (v : env) (g : gen) : res cpc_state :=
     if g_erc20_native g then
       if zhas (k_bond_denom k) (c_denoms c0) then Panic
       else if negb (v_bond_supply_pos v) then Panic
+      else if negb (macc_ok k v) then Panic
       else match deploy (v_next_dyn v) (k_native_meta k) c0 with
            | Ok c => Ok (Cpc (c_params c) (c_metas c) (zset (k_bond_denom k) (v_next_dyn v) (c_denoms c)) (c_allow c))
            | Panic => Panic
